@@ -105,22 +105,22 @@ func (m *MTProto) makeAuthKey() error { // nolint don't know how to make method 
 	// this apparently is just part of diffie hellman, so just leave it as it is, hope that it will just work
 	_, gB, gAB := math.MakeGAB(dhi.G, big.NewInt(0).SetBytes(dhi.GA), big.NewInt(0).SetBytes(dhi.DhPrime))
 
-	authKey := gAB.Bytes()
-	if authKey[0] == 0 {
-		authKey = authKey[1:]
-	}
+	// auth key is ALWAYS 2048 bit value: big.Int.Bytes() drops leading zero bytes, so they must be padded back
+	authKey := fixedWidthBytes(gAB, 256) // nolint:gomnd 2048 bit
 
 	m.SetAuthKey(authKey)
 
 	// I don't know what it is, apparently some very specific way to generate keys
 	t4 := make([]byte, 32+1+8) // nolint:gomnd ALL PROTOCOL IS A MAGIC
-	copy(t4[0:], nonceSecond.Bytes())
+	nonceSecondBytes := fixedWidthBytes(nonceSecond.Int, tl.Int256Len)
+	nonceServerBytes := fixedWidthBytes(nonceServer.Int, tl.Int128Len)
+	copy(t4[0:], nonceSecondBytes)
 	t4[32] = 1
 	copy(t4[33:], dry.Sha1Byte(m.GetAuthKey())[0:8])
 	nonceHash1 := dry.Sha1Byte(t4)[4:20]
 	salt := make([]byte, tl.LongLen)
-	copy(salt, nonceSecond.Bytes()[:8])
-	math.Xor(salt, nonceServer.Bytes()[:8])
+	copy(salt, nonceSecondBytes[:8])
+	math.Xor(salt, nonceServerBytes[:8])
 	m.serverSalt = int64(binary.LittleEndian.Uint64(salt))
 
 	// (encoding) client_DH_inner_data
@@ -149,7 +149,7 @@ func (m *MTProto) makeAuthKey() error { // nolint don't know how to make method 
 	if nonceServer.Cmp(dhg.ServerNonce.Int) != 0 {
 		return fmt.Errorf("handshake: Wrong server_nonce: %v, %v", nonceServer, dhg.ServerNonce)
 	}
-	if !bytes.Equal(nonceHash1, dhg.NewNonceHash1.Bytes()) {
+	if !bytes.Equal(nonceHash1, fixedWidthBytes(dhg.NewNonceHash1.Int, tl.Int128Len)) {
 		return fmt.Errorf(
 			"handshake: Wrong new_nonce_hash1: %v, %v",
 			hex.EncodeToString(nonceHash1),
@@ -162,4 +162,16 @@ func (m *MTProto) makeAuthKey() error { // nolint don't know how to make method 
 	m.encrypted = true
 	err = m.SaveSession()
 	return errors.Wrap(err, "saving session")
+}
+
+// fixedWidthBytes returns big-endian bytes of v left-padded with zeros to size bytes: nonces, hashes and
+// keys are fixed-width values, and big.Int.Bytes() drops their leading zero bytes
+func fixedWidthBytes(v *big.Int, size int) []byte {
+	b := v.Bytes()
+	if len(b) >= size {
+		return b
+	}
+	res := make([]byte, size)
+	copy(res[size-len(b):], b)
+	return res
 }
